@@ -33,6 +33,7 @@ EXEC_INV = ["R1_Exec", "Emit"]
 cfg("MC_exec_basic.cfg", exec_consts(), EXEC_INV)
 cfg("MC_exec_abstract.cfg", exec_consts(FieldAlpha="<- AlphaAbstract", Aliases='= {""}', Conds='= {"", "A", "B", "P", "C"}', MaxSel="= 4"), EXEC_INV)
 cfg("MC_exec_typeres.cfg", exec_consts(FieldAlpha="<- AlphaTypeRes", Aliases='= {""}', Conds='= {"", "A", "B"}', MaxSel="= 3", TRSets="<- AllTR"), EXEC_INV)
+cfg("MC_exec_widen.cfg", exec_consts(FieldAlpha="<- AlphaWiden", Aliases='= {""}', Conds='= {"P", "A"}', MaxSel="= 4", MaxOverlay="= 0"), EXEC_INV)
 cfg("MC_exec_lists.cfg", exec_consts(FieldAlpha="<- AlphaLists", Aliases='= {""}', MaxSel="= 3"), EXEC_INV)
 cfg("MC_exec_args.cfg", exec_consts(FieldAlpha="<- AlphaArgs", ArgOpts="<- ArgOptsStd", Aliases='= {"", "z"}', MaxSel="= 3", MaxOverlay="= 0"), EXEC_INV)
 cfg("MC_exec_frag.cfg", exec_consts(FieldAlpha="<- AlphaFrag", Aliases='= {""}', Conds='= {"T", "P", "A", "Query"}', MaxFrags="= 2", MaxSel="= 4", MaxOverlay="= 0"), EXEC_INV)
@@ -131,6 +132,8 @@ cfg("MC_exec_sim.cfg", exec_consts(FieldAlpha="<- AlphaAll", Aliases='= {"", "z"
 cfg("MC_exec_sim3.cfg", exec_consts(FieldAlpha="<- AlphaAll", Aliases='= {"", "z"}', Conds='= {"", "T", "P", "A", "B", "C", "U"}', DirOpts="<- NoDirs",
     ArgOpts="<- ArgOptsStd", MaxSel="= 12", MaxDepth="= 4", MaxFrags="= 1", MaxOps="= 1", OpTypes='= {"query", "mutation"}', MaxOverlay="= 0"), EXEC_INV)
 
+for cap, nm in ((0, "off"), (1, "k1"), (99, "inf")):
+    cfg("MC_hist_%s.cfg" % nm, cache_consts(Capacity="= %d" % cap, MaxLen="= 4", ReqPool="<- PoolHist"), CACHE_INV, spec="SpecE")
 # ---- C18: envelope (operation selection x variables matrix; one request per behaviour) ---------
 cfg("MC_env.cfg", cache_consts(Capacity="= 99", MaxLen="= 1", ReqPool="<- PoolEnv"), CACHE_INV, spec="SpecE")
 
@@ -139,6 +142,7 @@ for mode, inv in (("vars", ["R1_Vars", "EmitVars"]), ("ways", ["R1_Ways", "EmitW
     for part, (lo, hi) in enumerate([(1, 16), (17, 32), (33, 44), (45, 52), (53, 60), (61, 99)]):
         cfg("MC_%s_%d.cfg" % (mode, part), {"MODE": '= "%s"' % mode, "TLO": "= %d" % lo, "THI": "= %d" % hi}, inv)
 cfg("MC_pairs.cfg", {"MODE": '= "pairs"', "TLO": "= 1", "THI": "= 1"}, ["R1_Pairs", "EmitPairs"])
+cfg("MC_pairs2.cfg", {"MODE": '= "pairs2"', "TLO": "= 1", "THI": "= 1"}, ["R1_Pairs", "EmitPairs"])
 
 # ---- C06 / C07: validation ---------------------------------------------------------------------------
 VALID_INV = ["R1_SeedsValid", "R1_RewritesInvalid", "EmitV"]
